@@ -60,6 +60,23 @@ async def child(ev):
 
 
 async def main():
+    if first == "racing_thread":
+        # another thread's extraction is in the middle of installing the Trio glue (held there for a moment) when this task asks
+        # for its own tree: the answer must wait for the glue, not come back without it
+        from stackscope import _glue
+
+        entered, release = threading.Event(), threading.Event()
+        real_glue = _glue.builtin_glue_pending.get("trio")
+        if real_glue is not None:
+            def slow_glue():
+                entered.set()
+                release.wait(1.5)
+                real_glue()
+            _glue.builtin_glue_pending["trio"] = slow_glue
+        th = threading.Thread(target=first_extract, daemon=True)
+        th.start()
+        await trio.to_thread.run_sync(lambda: entered.wait(5))
+        out["glue_was_pending"] = real_glue is not None
     if first == "task":
         first_extract()
     if first == "thread":
@@ -86,6 +103,9 @@ async def main():
         out["want"] = sorted(t.name for t in nursery.child_tasks)
         out["error"] = repr(st.error) if st.error is not None else None
         ev.set()
+    if first == "racing_thread":
+        release.set()
+        await trio.to_thread.run_sync(lambda: th.join(10))
 
 
 trio.run(main, instruments=[Inst()])
